@@ -1,7 +1,7 @@
 """C10 ASCII armor (DESIGN §5 C10)."""
 import re
 from rules import stream
-from rules.common import rdom, call_blocks, ok_exit_blocks, site, arm_context
+from rules.common import rdom, call_blocks, ok_exit_blocks, site, arm_context, single_defs
 from core import guard_switches, must_pass, fmt_path, has_origin
 
 EXPLANATION = ("Decides structural clauses of C10, not the behaviour: every digest/CRC accumulator update in the crate is applied to state that "
@@ -242,9 +242,65 @@ def line_writer_flush_is_forwarding(ctx, P):
               calls == ['std::io::Write::flush'] and not stores, function=b.path, calls=calls, missing=None if (calls == ['std::io::Write::flush'] and not stores) else 'calls %s, %d stores to self' % (calls, len(stores)))
 
 
+def literal_of(b, o, defs, depth=0):
+    """The string / byte-string literal an operand denotes (through references, `[..]` of the literal and unsizing), or None."""
+    for _ in range(10):
+        if 'k' in o:
+            sv = o['k'].get('s')
+            if isinstance(sv, str):
+                if sv.startswith('b"') and sv.endswith('"'):
+                    return sv[2:-1]
+                if sv.startswith('"') and sv.endswith('"'):
+                    return sv[1:-1]
+            return None
+        if 'l' not in o:
+            return None
+        d = defs.get(o['l'])
+        if d is None:
+            return None
+        x = d[1]
+        if x.get('k') == 'call':
+            if re.search(r'ops::Index(Mut)?::index(_mut)?$|ops::Deref::deref$|AsRef::as_ref$|::as_bytes$', x['f'].get('fn', '') or '') and x['args']:
+                o = x['args'][0]
+                continue
+            return None
+        r = x['r']
+        if r['k'] in ('use', 'cast'):
+            o = r['o'][0]
+            continue
+        if r['k'] in ('ref', 'copyderef'):
+            o = dict(l=r['p']['l'], pr=[])
+            continue
+        return None
+    return None
+
+
+def leading_text_skip(ctx, P):
+    """Tolerant reading: text in front of the armor is skipped by searching for a pattern, after which the header LINE parser must
+    match at once.  The search pattern therefore has to be the complete opener that the line parser requires first (the separator
+    followed by `BEGIN `); searching for less stops at the first harmless occurrence of the shorter pattern in the leading text
+    (a forwarded-mail rule, a Markdown ruler) and the whole armor is refused.  Sibling agreement between two functions, both read
+    from the code - no literal is frozen in the rule."""
+    hp = ctx.body('armor::reader::header_parser')
+    lp = ctx.body('armor::reader::armor_header_line')
+    sp = ctx.body('armor::reader::armor_header_sep')
+    if hp is None or lp is None or sp is None:
+        return
+    skips = [literal_of(hp, t['args'][0], single_defs(hp)) for i, t in hp.calls(r'nom::bytes::streaming::take_until$') if t['args']]
+    sep = [literal_of(sp, t['args'][0], single_defs(sp)) for i, t in sp.calls(r'nom::bytes::streaming::tag$') if t['args']]
+    first = [literal_of(lp, t['args'][0], single_defs(lp)) for i, t in lp.calls(r'nom::bytes::streaming::tag$') if t['args']]
+    # the line parser is `delimited(pair(sep, tag(FIRST)), type, pair(sep, line_ending))`: FIRST = its own first tag literal
+    opener = (sep[0] + first[0]) if sep and first and sep[0] is not None and first[0] is not None else None
+    ctx.check(P + ':S10-7:leading-text-skipped-to-full-opener', 'R-sib',
+              'the pattern header_parser searches for to skip leading text is the whole opener the header-line parser requires (%r)' % (opener,),
+              opener is not None and len(skips) == 1 and skips[0] == opener, function=hp.path, table=dict(skip=skips, separator=sep, line_first_tag=first),
+              missing=None if (opener is not None and skips == [opener]) else 'skips to %r but the line parser needs %r right there: leading text that contains the shorter pattern makes the armor unreadable' % (skips, opener))
+
+
 def run(ctx):
     P = 'C10'
     stream.r_lost(ctx, P, 'S10-1')
+    leading_text_skip(ctx, P)
     b = ctx.body('armor::reader::Dearmor::<R>::read_footer')
     if b is not None:
         oks = ok_exit_blocks(b)
